@@ -27,7 +27,16 @@ ASSUMPTIONS = ["count/base, range and sum-to-one claims: plain subtotals only (w
 TRUSTED = ["numpy"]
 
 REG = std_pairings(Reg())
+# rows with a category that carries no numeric value (scale statistics skip it; proportions must not)
+from mc import schemas as _S   # noqa: E402
+REG.add(_S.schema2("catnv3_x_cat2", _S.cat("a", 3, "mid", values=[1, None, 3]), _S.cat("b", 2, "first"), weighted=True), (1, 2),
+        configs=[{}], quick=2, thorough=3)
 SCHEMAS = REG.schemas
+# outputs read FIRST on an untouched partition by the order-of-reads guard (they share cached blocks with the
+# proportions or are computed from them)
+READ_FIRST = ["smoothed_columns_scale_mean", "smoothed_column_proportions", "columns_scale_mean", "rows_scale_mean",
+              "population_counts", "zscores", "column_std_err", "row_std_err", "table_std_err", "column_index",
+              "rows_margin_proportion", "columns_margin_proportion"]
 
 
 # the x100 relation on tables that carry subtotal DIFFERENCES (negative and NaN proportions)
@@ -209,4 +218,14 @@ def check(space, state):
                               % (name, d[0], d[1], d[2]), output=name, cell=list(d[0])))
         outs.append(arr_bytes(part.row_proportions, part.column_proportions, part.table_proportions))
         nontrivial = nontrivial or any(x > 0 for row in a["count"] for x in row)
+        # order-of-reads guard (single-partition schemas): other outputs first, then the proportions
+        if len(oracles) == 1:
+            fresh = Cube(tabulate(sch, data), transforms=transforms_for(cfg), population=1000).partitions[0]
+            for first in READ_FIRST:
+                try:
+                    getattr(fresh, first)
+                except Exception:
+                    pass
+            for name in ("row_proportions", "column_proportions", "table_proportions"):
+                cmp(name + ":after_other_reads", getattr(fresh, name), exp[name])
     return Res(V, nontrivial, digest(space, state[1], *outs), asserted)
